@@ -1,37 +1,30 @@
 #!/bin/bash
-# usage: mc/tools_confirm_seeded.sh <deliverable dir with patch.diff demo.py README.md> <name> <PROPERTY-ID> [more check ids]
+# usage: mc/tools_confirm_seeded.sh <deliverable dir with patch.diff demo.py README.md | seeded/<name>> <name> <PROPERTY-ID> [more check ids]
 # Confirms an independently written change (pinned tests still pass, demo passes on clean / fails on changed tree),
-# runs the given quick checks against it, and stores everything as /verif/seeded/<name>/ (patch.diff, demo.py, README.md, meta.json).
+# runs the given quick checks against it in a scratch worktree (VERIF_REPO), and stores everything as
+# /verif/seeded/<name>/ (patch.diff, demo.py, README.md, meta.json).
 set -u
 src="$(readlink -f "$1")"; name="$2"; shift 2
 prop="$1"
 out=/verif/seeded/$name; mkdir -p "$out"
-cp "$src/patch.diff" "$src/demo.py" "$out/"; [ -f "$src/README.md" ] && cp "$src/README.md" "$out/"
+if [ "$src" != "$out" ]; then cp "$src/patch.diff" "$src/demo.py" "$out/"; [ -f "$src/README.md" ] && cp "$src/README.md" "$out/"; fi
 wt=$(mktemp -d /tmp/seedwt-XXXXXX); rmdir "$wt"
 git -C /repo worktree add -q --detach "$wt" HEAD || exit 2
 demo_clean=$(cd /tmp && PYTHONPATH="$wt/src" timeout 300 /venv/bin/python "$out/demo.py" >/dev/null 2>&1; echo $?)
 if ! git -C "$wt" apply "$out/patch.diff"; then echo "PATCH DOES NOT APPLY"; git -C /repo worktree remove --force "$wt"; exit 2; fi
 demo_mut=$(cd /tmp && PYTHONPATH="$wt/src" timeout 300 /venv/bin/python "$out/demo.py" >/dev/null 2>&1; echo $?)
 pinned=$(cd "$wt" && PYTHONPATH="$wt/src" /venv/bin/python -m pytest -q -p no:cacheprovider --timeout=900 --continue-on-collection-errors 2>&1 | tail -1)
-results=""
+tmp=$(mktemp)
 for pid in "$@"; do
   o=$(cd /verif && VERIF_REPO="$wt" VERIF_NO_EVIDENCE=1 ./check "$pid" --tier "${TIER:-quick}" 2>&1); rc=$?
   nv=$(echo "$o" | grep -c '^VIOLATION')
-  first=$(echo "$o" | grep -A1 '^VIOLATION' | sed -n 2p | cut -c1-300 | sed 's/"/\\"/g')
-  results="$results{\"check\":\"$pid\",\"tier\":\"${TIER:-quick}\",\"exit\":$rc,\"violation_lines\":$nv,\"first\":\"$first\"},"
+  first=$(echo "$o" | grep -A1 '^VIOLATION' | sed -n 2p | cut -c1-400)
+  printf '%s\t%s\t%s\t%s\t%s\n' "$pid" "${TIER:-quick}" "$rc" "$nv" "$first" >> "$tmp"
   echo "== $name: check $pid rc=$rc violations=$nv"
-  echo "$o" | grep -A1 '^VIOLATION' | sed -n 2p | cut -c1-300
+  echo "$first" | cut -c1-300
 done
 git -C /repo worktree remove --force "$wt"
 head=$(git -C /repo log --format=%h -1)
-cat > "$out/meta.json" <<JSON
-{
- "property": "$prop",
- "name": "$name",
- "origin": "fresh sub-agent given only the property text and a scratch worktree",
- "repo_head": "$head",
- "confirmed": {"demo_exit_on_clean_tree": $demo_clean, "demo_exit_with_change": $demo_mut, "pinned_suite_with_change": "$pinned"},
- "checks_run": [${results%,}]
-}
-JSON
+/venv/bin/python /verif/mc/tools_seeded_meta.py "$out" "$name" "$prop" "$head" "$demo_clean" "$demo_mut" "$pinned" "$tmp"
+rm -f "$tmp"
 echo "demo clean=$demo_clean mut=$demo_mut pinned='$pinned'"
